@@ -188,4 +188,212 @@ theorem anc_dir_aux {fs : Fs} (hc : Closed fs) : ∀ (k : Nat) (p q : Path), p.l
 theorem anc_dir {fs : Fs} (hc : Closed fs) {p q : Path} (hs : (fs.lookup p).isSome) (hq : q <+: p) (hne : q ≠ p) :
     fs.lookup q = some .dir := anc_dir_aux hc p.length p q rfl hs hq hne
 
+theorem nat_pigeon : ∀ (m : Nat) (L : List Nat), (∀ k, 1 ≤ k → k ≤ m → k ∈ L) → m ≤ L.length := by
+  intro m
+  induction m with
+  | zero => intro L _; exact Nat.zero_le _
+  | succ m ih =>
+    intro L h
+    have hm : m + 1 ∈ L := h (m + 1) (by omega) (by omega)
+    have h1 := List.length_erase_of_mem hm
+    have h2 : 0 < L.length := List.length_pos_of_mem hm
+    have := ih (L.erase (m + 1)) (fun k hk1 hk2 =>
+      (List.mem_erase_of_ne (by omega : k ≠ m + 1)).2 (h k hk1 (by omega)))
+    omega
+
+/-- an existing object is at most as deep as there are directory entries -/
+theorem depth_le {fs : Fs} (hc : Closed fs) {p : Path} {n : Node} (hm : (p, n) ∈ fs.nodes) :
+    p.length ≤ fs.nodes.length := by
+  have := nat_pigeon p.length (fs.nodes.map (·.1.length)) (fun k hk1 hk2 => by
+    by_cases e : p.take k = p
+    · have : p.length = k := by
+        have := congrArg List.length e
+        simp at this; omega
+      exact List.mem_map.2 ⟨(p, n), hm, this⟩
+    · have hd := anc_dir hc (lookup_isSome_of_mem hm) (List.take_prefix k p) e
+      have hne : p.take k ≠ [] := by
+        intro e0
+        have := congrArg List.length e0
+        simp at this; rcases this with h | h
+        · omega
+        · subst h; simp at e
+      exact List.mem_map.2 ⟨(p.take k, .dir), lookup_mem hne hd, by simp; omega⟩)
+  simpa using this
+
+/-! ### lexical walks below `O` -/
+
+/-- where the lexical walk of `cs` from `O ++ w` ends (`..` = `dropLast`) -/
+def lexEnd : List Bytes → List Bytes → List Bytes
+  | w, [] => w
+  | w, c :: r => if c = [dot, dot] then lexEnd w.dropLast r else lexEnd (w ++ [c]) r
+
+def NotLink (fs : Fs) (p : Path) : Prop := ∀ t, fs.lookup p ≠ some (.link t)
+
+/-- the lexical walk of `cs` from `O ++ w` never climbs above `O` and never meets a symbolic link -/
+def LexOk (fs : Fs) (O : Path) : List Bytes → List Bytes → Prop
+  | _, [] => True
+  | w, c :: r =>
+    if c = [dot, dot] then w ≠ [] ∧ LexOk fs O w.dropLast r
+    else NotLink fs (O ++ (w ++ [c])) ∧ LexOk fs O (w ++ [c]) r
+
+/-- `fs'` has no symbolic link that `fs` did not have -/
+def Mono (fs fs' : Fs) : Prop := ∀ p, NotLink fs p → NotLink fs' p
+
+theorem Mono.refl (fs : Fs) : Mono fs fs := fun _ h => h
+theorem Mono.trans {a b c : Fs} (h1 : Mono a b) (h2 : Mono b c) : Mono a c := fun p h => h2 p (h1 p h)
+
+theorem LexOk.mono {fs fs' : Fs} {O : Path} (hm : Mono fs fs') : ∀ (cs w : List Bytes),
+    LexOk fs O w cs → LexOk fs' O w cs := by
+  intro cs
+  induction cs with
+  | nil => intro w _; trivial
+  | cons c r ih =>
+    intro w h
+    unfold LexOk at h ⊢
+    split
+    · rename_i hc; rw [if_pos hc] at h; exact ⟨h.1, ih _ h.2⟩
+    · rename_i hc; rw [if_neg hc] at h; exact ⟨hm _ h.1, ih _ h.2⟩
+
+theorem LexOk_append {fs : Fs} {O : Path} : ∀ (a w b : List Bytes),
+    LexOk fs O w (a ++ b) ↔ LexOk fs O w a ∧ LexOk fs O (lexEnd w a) b := by
+  intro a
+  induction a with
+  | nil => intro w b; simp [LexOk, lexEnd]
+  | cons c r ih =>
+    intro w b
+    simp only [List.cons_append, LexOk, lexEnd]
+    split
+    · rw [ih]; exact and_assoc.symm
+    · rw [ih]; exact and_assoc.symm
+
+theorem lexEnd_append : ∀ (a w b : List Bytes), lexEnd w (a ++ b) = lexEnd (lexEnd w a) b := by
+  intro a
+  induction a with
+  | nil => intro w b; rfl
+  | cons c r ih =>
+    intro w b
+    simp only [List.cons_append, lexEnd]
+    split <;> exact ih _ _
+
+theorem lexEnd_nodd : ∀ (a w : List Bytes), [dot, dot] ∉ a → lexEnd w a = w ++ a := by
+  intro a
+  induction a with
+  | nil => intro w _; simp [lexEnd]
+  | cons c r ih =>
+    intro w h
+    simp only [List.mem_cons, not_or] at h
+    simp only [lexEnd, if_neg (Ne.symm h.1)]
+    rw [ih _ h.2]; simp
+
+theorem dropLast_below (O w : List Bytes) (hw : w ≠ []) : (O ++ w).dropLast = O ++ w.dropLast :=
+  List.dropLast_append_of_ne_nil hw
+
+/-- along a link-free lexical walk, `resolve` (if it succeeds) is lexical -/
+theorem resolve_lex {fs : Fs} {O : Path} (fl : Bool) : ∀ (cs : List Bytes) (fuel : Nat) (w rest : List Bytes) (p : Path),
+    LexOk fs O w cs → resolve fs fl fuel (O ++ w) (cs ++ rest) = some p →
+    ∃ fuel', resolve fs fl fuel' (O ++ lexEnd w cs) rest = some p := by
+  intro cs
+  induction cs with
+  | nil => intro fuel w rest p _ h; exact ⟨fuel, h⟩
+  | cons c r ih =>
+    intro fuel w rest p hl h
+    cases fuel with
+    | zero => simp [resolve] at h
+    | succ fuel =>
+      simp only [List.cons_append, resolve] at h
+      unfold LexOk at hl
+      simp only [lexEnd]
+      split at h
+      · rename_i hc
+        rw [if_pos hc] at hl ⊢
+        rw [dropLast_below O w hl.1] at h
+        exact ih fuel _ rest p hl.2 h
+      · rename_i hc
+        rw [if_neg hc] at hl ⊢
+        rw [List.append_assoc] at h
+        split at h
+        · rename_i t ht; exact absurd ht (hl.1 t)
+        · exact ih fuel _ rest p hl.2 h
+        · split at h
+          · rename_i hr
+            have hr' := List.append_eq_nil_iff.1 hr
+            obtain ⟨rfl, rfl⟩ := hr'
+            exact ⟨1, by simpa [resolve, lexEnd] using h⟩
+          · cases h
+        · split at h
+          · rename_i hr
+            have hr' := List.append_eq_nil_iff.1 hr
+            obtain ⟨rfl, rfl⟩ := hr'
+            exact ⟨1, by simpa [resolve, lexEnd] using h⟩
+          · cases h
+
+theorem resolve_nil {fs : Fs} {fl : Bool} {fuel : Nat} {cur p : Path} (h : resolve fs fl fuel cur [] = some p) : p = cur := by
+  cases fuel with
+  | zero => simp [resolve] at h
+  | succ f => simpa [resolve] using h.symm
+
+/-- a successful `resolve` along a link-free lexical walk ends at the lexical end -/
+theorem resolve_lex_eq {fs : Fs} {O : Path} {fl : Bool} {cs : List Bytes} {fuel : Nat} {w : List Bytes} {p : Path}
+    (hl : LexOk fs O w cs) (h : resolve fs fl fuel (O ++ w) cs = some p) : p = O ++ lexEnd w cs := by
+  have h' : resolve fs fl fuel (O ++ w) (cs ++ []) = some p := by simpa using h
+  obtain ⟨f', hf⟩ := resolve_lex fl cs fuel w [] p hl h'
+  exact resolve_nil hf
+
+theorem resolve_last_nofollow {fs : Fs} {fuel : Nat} {cur p : Path} {c : Bytes} (hc : c ≠ [dot, dot])
+    (h : resolve fs false fuel cur [c] = some p) : p = cur ++ [c] := by
+  cases fuel with
+  | zero => simp [resolve] at h
+  | succ f =>
+    simp only [resolve, if_neg hc] at h
+    split at h
+    · simpa using h.symm
+    · exact resolve_nil h
+    · simpa using h.symm
+    · simpa using h.symm
+
+/-- `resolve` without following the last component, the parent walk being link-free and lexical -/
+theorem resolve_parent_last {fs : Fs} {O : Path} {cs : List Bytes} {fuel : Nat} {w : List Bytes} {c : Bytes} {p : Path}
+    (hl : LexOk fs O w cs) (hc : c ≠ [dot, dot]) (h : resolve fs false fuel (O ++ w) (cs ++ [c]) = some p) :
+    p = O ++ lexEnd w cs ++ [c] := by
+  obtain ⟨f', hf⟩ := resolve_lex false cs fuel w [c] p hl h
+  exact resolve_last_nofollow hc hf
+
+theorem resolve_step_dir {fs : Fs} {fl : Bool} {f : Nat} {cur : Path} {d : Bytes} {cs : List Bytes}
+    (hd : d ≠ [dot, dot]) (hl : fs.lookup (cur ++ [d]) = some .dir) :
+    resolve fs fl (f + 1) cur (d :: cs) = resolve fs fl f (cur ++ [d]) cs := by
+  simp only [resolve, if_neg hd, hl]
+
+/-- an existing object whose path has no `..` is found by `resolve` (no-follow), given enough fuel -/
+theorem resolve_existing {fs : Fs} (hc : Closed fs) : ∀ (cs : List Bytes) (cur : Path) (fuel : Nat),
+    (fs.lookup (cur ++ cs)).isSome → [dot, dot] ∉ cs → cs.length < fuel →
+    resolve fs false fuel cur cs = some (cur ++ cs) := by
+  intro cs
+  induction cs with
+  | nil =>
+    intro cur fuel _ _ hf
+    cases fuel with
+    | zero => simp at hf
+    | succ f => simp [resolve]
+  | cons c r ih =>
+    intro cur fuel hs hdd hf
+    simp only [List.mem_cons, not_or] at hdd
+    cases fuel with
+    | zero => simp at hf
+    | succ f =>
+      simp only [resolve, if_neg (Ne.symm hdd.1)]
+      by_cases hr : r = []
+      · subst hr
+        simp only [List.length_cons, List.length_nil] at hf
+        have hf1 : ∃ g, f = g + 1 := ⟨f - 1, by omega⟩
+        obtain ⟨g, rfl⟩ := hf1
+        split <;> simp [resolve]
+      · have hpre : cur ++ [c] <+: cur ++ c :: r := ⟨r, by simp⟩
+        have hne : cur ++ [c] ≠ cur ++ c :: r := by
+          intro e
+          have := List.append_cancel_left e
+          simp at this; exact hr this
+        rw [anc_dir hc hs hpre hne]
+        have := ih (cur ++ [c]) f (by simpa using hs) hdd.2 (by simp at hf; omega)
+        simpa using this
+
 end Pna.Confined
